@@ -34,11 +34,15 @@ class Base(Exception):
 
 
 class Sub(Base):
-    pass
+    """instances are falsy: an exception is an exception whatever its truth value"""
+    def __bool__(self):
+        return False
 
 
 class Other(Exception):
-    pass
+    """falsy through __len__ (an aggregate error with an empty list of sub-errors)"""
+    def __len__(self):
+        return 0
 
 
 class BOnly(BaseException):
